@@ -134,7 +134,11 @@ func (e *Env) Exec(bin, progs, events string, timeout time.Duration) error {
 			return ErrHang
 		}
 		if err != nil {
-			return fmt.Errorf("vexec: %v: %s", err, tail(errb.String(), 2000))
+			msg := errb.String()
+			if len(msg) > 2600 {
+				msg = msg[:600] + "\n...\n" + tail(msg, 2000)
+			}
+			return fmt.Errorf("vexec %s: %v: %s", filepath.Base(progs), err, msg)
 		}
 		return nil
 	case <-time.After(timeout):
